@@ -973,6 +973,10 @@ def trim_allocation(prog, rep):
 RENAME_LOCALS = ['src/pinifile.c']
 
 SELFTEST = [
+    dict(id="boolean-getter-returns-raw-number", file="src/pinifile.c", expect="C16.5",
+         old="\telse if (atoi (val) > 0)\n\t\tret = TRUE;\n\telse\n\t\tret = FALSE;", new="\telse\n\t\tret = (pboolean) atoi (val);"),
+    dict(id="boolean-getter-comparison-result-neutral", file="src/pinifile.c", expect=None,
+         old="\telse if (atoi (val) > 0)\n\t\tret = TRUE;\n\telse\n\t\tret = FALSE;", new="\telse\n\t\tret = (atoi (val) > 0) ? TRUE : FALSE;"),
     dict(id="strchomp-all-blank-returns-null", file="src/pstring.c", expect="C16.7",
          old="\tif (pos_end < pos_start)\n\t\treturn p_strdup (\"\\0\");", new="\tif (pos_end < 0)\n\t\treturn p_strdup (\"\\0\");"),
     dict(id="strchomp-distance-tested-neutral", file="src/pstring.c", expect=None,
